@@ -3,7 +3,7 @@ from . import pepsolve, translate, wrappers, c16, mosekprog, solveprog
 
 LEVEL = "other"
 EXPLANATION = ("Lock-step leaf creation (index taken, counter incremented, object registered) and post-solve assignment of every registered leaf at its "
-               "own index from the triangular factor of the clipped Gram matrix (R-LEAFREG); sibling agreement and exhaustiveness of the consumers of an "
+               "own index from the triangular factor of the clipped Gram matrix -- constructors and assignment routine unrolled, numpy kept as algebraic terms (R-LEAFREG); sibling agreement and exhaustiveness of the consumers of an "
                "expression decomposition (R-KEYKINDS); one constraint objective <= metric per metric (R-OBJ); accumulation shape of the eval accessors "
                "(R-EVALSHAPE).")
 TRUSTED = ["CPython ast", "numpy: qr(A, mode='r') returns R with R^T R = A^T A; eigh returns an orthonormal eigenbasis"]
